@@ -16,6 +16,32 @@ LEVEL_NOTE_COMMON = (
 
 # property -> (claim text, partial clauses / what is implementation-side only, design ref)
 CLAIMS = {
+    "C14": (
+        "Theorems C14_root_inv / C14_children_inv (what every constructor receives and in which order), C14_child_config / "
+        "C14_child_order / C14_no_external (hard-coded add_component kwargs deep-merged with and overridden by the external "
+        "configuration, config-only children created, via C17), C14_type_* / C14_type_equiv (class, reference and "
+        "entry-point spellings of a type are interchangeable; default from the alias), C14_alias_* and C14_publish_* "
+        "(kind/name aliases; default remapped in start() only) hold for all class tables and configuration trees about the "
+        "Lean function `initTree`; the correspondence starts generated component trees on the real start_component() and "
+        "requires the same constructor order, kwargs, published resource names and errors.",
+        "Partial: 'leaves the configuration object unmodified' and 'equal configurations give equal trees' are object "
+        "mutation / determinism facts decided on the implementation only (deep snapshot, second start with the same object). "
+        "Type resolution (import_module, importlib.metadata entry points) is a parameter of the model.",
+        "8/C14",
+    ),
+    "C16": (
+        "Theorems C16_no_services / C16_named / C16_only / C16_default / C16_option_over_env / C16_env_fallback (the selection "
+        "ladder as a decision table), C16_files_lookup / C16_later_file_* / C16_set_get / C16_set_frame / C16_set_not_mapping / "
+        "C16_service_lookup / C16_component_is_default_service / C16_extract / C16_pipeline (precedence: later file > earlier "
+        "file, --set > files, service section > top level, via C17), C16_split_roundtrip (dots split keys unless escaped) and "
+        "C16_error_starts_nothing hold for all file lists, override lists and service layouts about the Lean function "
+        "`cliConfig`; the correspondence runs the real click command in-process with run_application replaced by a recorder "
+        "and requires the same arguments or the same error.",
+        "Partial: YAML parsing (incl. !Env/!TextFile/!BinaryFile), click and os.environ are implementation-side only; the "
+        "model receives the parsed documents. Layouts with both a top-level component and services are compared with the "
+        "model but not judged against the statement.",
+        "8/C16",
+    ),
     "C17": (
         "Theorems C17_lookup / C17_keys / C17_mem_keys / C17_wf / C17_none_* state the right-biased deep merge for all "
         "pairs of nested dictionaries (unbounded depth and width) about the Lean function `merge`; the correspondence "
